@@ -474,3 +474,30 @@ def selftest():
             if v.shape != (dim,) or not np.all(np.isfinite(v)):
                 bad.append(f"phantom {name} {dim}")
     return bad
+
+# ----------------------------------------------------------------------------- observation of a PDE solution
+
+def obs_points(grid, positions):
+    """positions: [(k, half)] - node k of the solution grid, or the mid-point between nodes k and k+1; order as given"""
+    grid = np.asarray(grid, float)
+    return np.array([grid[k] if not half else (grid[k] + grid[k + 1]) / 2 for k, half in positions])
+
+def observe(grid, u, positions, kind):
+    """Observation of the solution u (given on grid) at the points, in the order given: at a node the nodal value itself,
+    off the nodes the documented interpolation (steady: quadratic spline of scipy.interpolate.interp1d; heat: the cubic
+    tensor spline evaluated at a time node, i.e. the interpolating cubic spline of the final state)."""
+    from scipy import interpolate
+    grid, u = np.asarray(grid, float), np.asarray(u, float)
+    out = np.empty(len(positions))
+    interp = None
+    for t, (k, half) in enumerate(positions):
+        if not half:
+            out[t] = u[k]
+            continue
+        if interp is None:
+            if kind == "steady":
+                interp = interpolate.interp1d(grid, u, kind="quadratic")
+            else:
+                interp = interpolate.InterpolatedUnivariateSpline(grid, u, k=min(3, len(grid) - 1))
+        out[t] = float(interp((grid[k] + grid[k + 1]) / 2))
+    return out
